@@ -49,6 +49,12 @@ OPS = {
     0x98: ["u2ref"], 0x99: ["u4ref"],  # call2 call4 (CU relative DIE reference)
     0xf2: ["refaddr", "sleb"],       # GNU_implicit_pointer
     0xa0: ["refaddr", "sleb"],       # implicit_pointer
+    0xa1: ["uleb"], 0xa2: ["uleb"], 0xfb: ["uleb"], 0xfc: ["uleb"],      # addrx constx GNU_addr_index GNU_const_index
+    0xa4: ["ulebref", "szblock"], 0xf4: ["ulebref", "szblock"],          # const_type GNU_const_type
+    0xa5: ["uleb", "ulebref"], 0xf5: ["uleb", "ulebref"],                # regval_type
+    0xa6: ["u1", "ulebref"], 0xf6: ["u1", "ulebref"], 0xa7: ["u1", "ulebref"],    # deref_type xderef_type
+    0xa8: ["ulebref"], 0xa9: ["ulebref"], 0xf7: ["ulebref"], 0xf9: ["ulebref"],   # convert reinterpret
+    0xfa: ["u4ref"],                 # GNU_parameter_ref
 }
 for _c in (0x14, 0x16, 0x17, 0x18, 0x19, 0x1a, 0x1b, 0x1d, 0x1e, 0x1f, 0x20, 0x21, 0x24, 0x25, 0x26, 0x27,
            0x29, 0x2a, 0x2b, 0x2c, 0x2d, 0x2e, 0x97, 0x9b, 0xe0, 0xf0):
@@ -94,6 +100,10 @@ def _expr(a, ops, cu_label, info_base, uniq):
                 a.label(".Lnest_%s_%d_s" % (uniq, i))
                 _expr(a, v, cu_label, info_base, "%s_%dn" % (uniq, i))
                 a.label(".Lnest_%s_%d_e" % (uniq, i))
+            elif kind == "ulebref": a.emit(".uleb128 die_%d - %s" % (v, cu_label))
+            elif kind == "szblock":
+                a.emit(".byte %d" % len(v))
+                for b in v: a.emit(".byte %d" % b)
             elif kind == "u2ref": a.emit(".value die_%d - %s" % (v, cu_label))
             elif kind == "u4ref": a.emit(".long die_%d - %s" % (v, cu_label))
             elif kind == "refaddr": a.emit(".long die_%d - %s" % (v, info_base))
